@@ -13,6 +13,7 @@
   py2coq.py constraints <repo> <out.v>  the `constraints` properties (closure lists) of device / sdevice / deviceset / subbalanced / mf / tworatio
   py2coq.py solve      <repo> <out.v>   solve.py: solve() and step() with the optimiser calls as parameters
   py2coq.py utils      <repo> <out.v>   utils.py: base_soc / soc / sustainment_matrix / power_matrix
+  py2coq.py basedevice <repo> <out.v>   basedevice.py: leaf_devices / map / mapDevices / get / find
   py2coq.py loaders    <repo> <out.v>   loaders/builder_loader.py run_to_array / run_to_cbounds_array, utils.py care2bounds / on2bounds
   py2coq.py projection <repo> <out.v>   projection/projection.py: every region method incl. the Dykstra loop (graceful fallback per method)
 
@@ -278,6 +279,9 @@ def main(argv):
     elif what == 'utils':
       from utils_tx import gen_utils
       text = gen_utils(repo)
+    elif what == 'basedevice':
+      from basedevice_tx import gen_basedevice
+      text = gen_basedevice(repo)
     elif what == 'loaders':
       from loaders_tx import gen_loaders
       text = gen_loaders(repo)
